@@ -101,3 +101,8 @@ func Persisted(idx bleve.Index, max time.Duration) bool {
 // NoMergePlan / AggressiveMergePlan are scorchMergePlanOptions values.
 var NoMergePlan = map[string]interface{}{"MaxSegmentsPerTier": 1000, "SegmentsPerMergeTask": 2, "TierGrowth": 1.0, "FloorSegmentSize": 1, "MaxSegmentSize": 1000000, "ReclaimDeletesWeight": 0.0}
 var AggressiveMergePlan = map[string]interface{}{"MaxSegmentsPerTier": 1, "SegmentsPerMergeTask": 2, "TierGrowth": 2.0, "FloorSegmentSize": 1, "MaxSegmentSize": 1000000, "ReclaimDeletesWeight": 2.0}
+
+// PartialMergePlan merges small segments eagerly but leaves every segment with >= 2 live documents
+// alone (MaxSegmentSize 4: a segment with at least half of that live is not eligible), so that merges
+// are introduced next to kept segments that carry obsoleted documents.
+var PartialMergePlan = map[string]interface{}{"MaxSegmentsPerTier": 1, "SegmentsPerMergeTask": 2, "TierGrowth": 2.0, "FloorSegmentSize": 1, "MaxSegmentSize": 4, "ReclaimDeletesWeight": 2.0}
